@@ -1,4 +1,6 @@
 import RedisGoModel.Raft.RHDriverLemmas
+import RedisGoModel.Raft.RHCRun
+import RedisGoModel.Raft.RHJRun
 /-! C15, step 8 — the two transport reports in the executable handler: `Input.snapStatus src failed`
     (`RawNode.ReportSnapshot` → MsgSnapStatus) and `Input.unreachable src` (`RawNode.ReportUnreachable` → MsgUnreachable).
 
@@ -14,7 +16,10 @@ import RedisGoModel.Raft.RHDriverLemmas
 
     Not modelled (open): `Prog` is not a field of `Node1`, the other inputs' effect on Next / State / ProbeSent / Inflights is not
     modelled; the lock-step compares the `Progress` record before/after the report events only (`Match` on every event).  The
-    configuration-aware handlers `RHC.handleC` / `RHJ.handleJ` have no report inputs. -/
+    configuration-aware handlers `RHC.handleC` / `RHJ.handleJ` have the same two inputs with the same meaning (`reportC_stutters`,
+    `reportJ_stutters`; always enabled, `handleC_outcome` / `handleJ_outcome` treat them as `stay`, so `runC_safe` / `runJ_safe` cover
+    runs that contain them), but the membership schedules of the lock-step make no reports: for those handlers the inputs are
+    model-level only. -/
 namespace RS
 variable {N : Nat}
 
@@ -118,6 +123,19 @@ example : (⟨.snapshot, 3, 4, 9, false, 0⟩ : Prog).snapStatus false = ⟨.pro
 example : (⟨.snapshot, 3, 4, 9, false, 0⟩ : Prog).snapStatus true = ⟨.probe, 3, 4, 0, true, 0⟩ := by decide
 example : (⟨.replicate, 7, 12, 0, false, 4⟩ : Prog).unreachable = ⟨.probe, 7, 8, 0, false, 0⟩ := by decide
 
+end RS
+
+/-- the configuration-aware handler: both reports leave the whole node (`Node1`, applied index, pendingConfIndex) alone and answer nothing -/
+theorem RHC.reportC_stutters {N : Nat} (c0 : RQJ.Config) (i src : Fin N) (x : RHC.NodeC N) (failed : Bool) :
+    RHC.handleC c0 i x (.snapStatus src failed) = (x, []) ∧ RHC.handleC c0 i x (.unreachable src) = (x, []) := ⟨rfl, rfl⟩
+
+/-- the joint-configuration handler: the same -/
+theorem RHJ.reportJ_stutters {N : Nat} (c0 : RQJ.Config) (i src : Fin N) (x : RHC.NodeC N) (failed : Bool) :
+    RHJ.handleJ c0 i x (.snapStatus src failed) = (x, []) ∧ RHJ.handleJ c0 i x (.unreachable src) = (x, []) := ⟨rfl, rfl⟩
+
+namespace RS
+#print axioms RHC.reportC_stutters
+#print axioms RHJ.reportJ_stutters
 #print axioms snapStatus_never_changes_match
 #print axioms unreachable_never_changes_match
 #print axioms snapStatus_stutters
